@@ -78,7 +78,7 @@ Theorem C03_pcr_displacement_reaches_target :
   is_relative_op (s_operand s) = false ->
   (forall l op r m, operand_left (s_operand s) <> Some (LVal (VExpr l op r m true))) ->
   (match operand_value (s_operand s) with VLR _ _ _ => True | _ => False end) ->
-  cp_needs (s_pkg s) = true ->
+  cp_needs (s_pkg s) = true -> addr_offset (s_pkg s) = false (* a PCR statement: it has post-byte choices *) ->
   addr_of ss4 (v_int (cp_add (s_pkg s))) = Ok tgt_addr -> addr_of ss4 this = Ok start ->
   fix_stmt ss4 this s = Ok s' ->
   exists n, cp_add (s_pkg s') = VNum n /\ (-32768 <= num_val n <= 32767)%Z /\
